@@ -27,7 +27,7 @@ RULE = ("one run = one sampling job: depth 0-2 (3 rarely), astronomical / planet
         "schedule; every tile file is compared bit-exactly with sampler(coords(tile)); non-trivial = >= 2 tasks enabled at some step "
         "or >= 2 tiles; distinct = sha1 of (scheduler trace + workload)")
 COMPONENTS = {
-    "real": ["toast.sample_layer / sample_layer_filtered / ToastSampler.visit_callback", "Pyramid.visit_leaves (serial + parallel) + workers",
+    "real": ["toast.sample_layer / sample_layer_filtered / ToastSampler.visit_callback", "Builder.toast_base (one run in three)", "Pyramid.visit_leaves (serial + parallel) + workers",
              "PyramidIO.write_image / update_image + filelock.SoftFileLock", "Image.save/load (numpy, astropy.io.fits, PIL)", "real files on tmpfs"],
     "stub": ["multiprocessing.Queue/Event/Process (model)", "clock", "file write atomicity model",
              "trusted geometry: toast.create_single_tile + toast_tile_get_coords give the expected pixel coordinates (their correctness is C04/C05, not C06)"],
@@ -46,7 +46,7 @@ MANIFEST = {
 }
 BUDGET = {"quick": (320, 75), "thorough": (15000, 1500)}
 REQUIRED_PROBES = {"quick": ["mode_update", "mode_clobber", "prior_state", "depth0"],
-                   "thorough": ["mode_update", "mode_clobber", "prior_state", "depth0", "concurrent_samplers", "lock_contended", "format_override"]}
+                   "thorough": ["mode_update", "mode_clobber", "prior_state", "depth0", "concurrent_samplers", "lock_contended", "format_override", "via_builder"]}
 CHUNK = 4
 SELFTEST_EVERY = 40
 FRESH_SELFTEST = 4
@@ -178,7 +178,7 @@ def run_one(ch, env):
 
     res = {"config": {"mode": "update" if update else "clobber", "depth": depth, "coordsys": coordsys.value, "sampler": kind,
                       "default_format": default_fmt, "format_override": override, "workers": workers, "prior_tiles": len(prior_tiles),
-                      "concurrent_samplers": len(samplers), "n_leaves": len(leaves),
+                      "concurrent_samplers": len(samplers), "n_leaves": len(leaves), "via_builder": None,
                       "filter_rejects": sorted(tuple(p) for p in cfg.rejects)[:20] if cfg else None},
            "extra": {"mode_update" if update else "mode_clobber": 1, "depth_%d" % depth: 1, "workers_%d" % workers: 1, "fmt_" + fmt: 1},
            "probes": {"mode_update": int(update), "mode_clobber": int(not update), "prior_state": int(bool(prior_tiles)), "depth0": int(depth == 0),
@@ -190,13 +190,25 @@ def run_one(ch, env):
     res["config"].update(common.sched_config(sim))
     import multiprocessing as mp
 
+    via_builder = ch.draw(3, kind="via_builder") == 2 and override is None
+
     def one_job(pio, sampler):
-        if update:
+        if via_builder:
+            # the Builder route used by the command-line tools: is_planet selects the coordinate system
+            from toasty.builder import Builder
+            kw = {"parallel": workers}
+            if update:
+                rejects = cfg.rejects
+                kw["tile_filter"] = lambda t: t.pos not in rejects
+            Builder(pio).toast_base(sampler, depth, is_planet=(coordsys == ToastCoordinateSystem.PLANETARY), **kw)
+        elif update:
             rejects = cfg.rejects
             ttoast.sample_layer_filtered(pio, lambda t: t.pos not in rejects, sampler, depth, coordsys=coordsys, parallel=workers)
         else:
             ttoast.sample_layer(pio, sampler, depth, coordsys=coordsys, format=override, parallel=workers)
 
+    res["config"]["via_builder"] = via_builder
+    res["probes"]["via_builder"] = int(via_builder)
     procs = []
 
     def main():
